@@ -77,6 +77,17 @@ func abort(w http.ResponseWriter) {
 	conn.Close()
 }
 
+// closeQuietly ends the connection in the middle of a response with an orderly close (FIN) instead of a reset.
+func closeQuietly(w http.ResponseWriter) {
+	hj, ok := w.(http.Hijacker)
+	if !ok {
+		return
+	}
+	if conn, _, err := hj.Hijack(); err == nil {
+		conn.Close()
+	}
+}
+
 func (p *Proxy) handle(w http.ResponseWriter, r *http.Request) {
 	protocol := !strings.Contains(r.URL.Path, ".well-known")
 	var f *Fault
@@ -168,7 +179,11 @@ func (p *Proxy) handle(w http.ResponseWriter, r *http.Request) {
 			if fl, ok := w.(http.Flusher); ok {
 				fl.Flush()
 			}
-			abort(w)
+			if f.Arg%2 == 1 {
+				closeQuietly(w) // orderly close: the client reads an unexpected EOF
+			} else {
+				abort(w) // reset
+			}
 			return
 		}
 	}
